@@ -31,16 +31,16 @@ def run(ctx):
     r = tlc.run("WriteLayout", cfg.replace("INVARIANT OrdersAgree", "INVARIANT OldOrdersAgree"), workers=1, allow_violation=True)
     ctx.extra["model_sensitive_to_exact_spelling_tables"] = (r.violation == "OldOrdersAgree")
     n = len(roundtrip.ITEMS)
-    cfg = ("SPECIFICATION Spec\nCONSTANTS\n  Family = \"C03\"\n  MaxCurves = 1\n  NPres = 1\n  NItems = %d\n  MaxList = %d\n  Emit = TRUE\n"
+    cfg = ("SPECIFICATION Spec\nCONSTANTS\n  Family = \"C03\"\n  MaxCurves = 1\n  NPres = 1\n  NItems = %d\n  MaxList = %d\n  TallRows = {}\n  Emit = TRUE\n"
            "CONSTRAINT EmitInst\nCHECK_DEADLOCK FALSE\n" % (n, 3 if thorough else 2))
     r = ctx.model_check("WriteInstances", cfg, label="WriteInstances family C03", workers=16, timeout=3000)
     insts = r.printed_json()
     insts.sort(key=lambda i: repr(sorted(i.items())))
     ctx.extra["model_instances"] = len(insts)
-    limit = None if thorough else 2500
-    if limit and len(insts) > limit:
+    limit = 50000 if thorough else 2500          # (24 items: 346 000 lists of <= 3 items x section x version x case)
+    ctx.exhaustive = len(insts) <= limit
+    if len(insts) > limit:
         insts = [insts[i] for i in sorted(rng.sample(range(len(insts)), limit))]
-    ctx.exhaustive = limit is None
     events = []
     for inst in insts:
         events.append(roundtrip.header_event(inst, rng))
